@@ -1,3 +1,43 @@
-(* C12, HLL part -- statements only (being built). *)
-From DS Require Import Base.Prelude Model.Hll Model.HllCodec.
+(* C12, HLL part -- emitted bytes follow the cross-language layout.  Statements only.
+   Spec/HllLayout.v holds the layout written from the format description (independent of the
+   model): constants, [hll_spec_decode], the spec encoders.
+   PARTIAL: for HLL only the constant glue is proved; the conformance statement
+       forall well-formed s, hll_spec_decode (hll_serialize s) = Some (abstract state of s)
+   is not proved -- it is checked by the layout oracle (Corr/Hll.v layout_ok) on every image the
+   crate emits in the correspondence run. *)
+From DS Require Import Base.Prelude Model.Hll Model.HllCodec Spec.HllLayout.
+From DS Require Gen.GenHll Gen.GenCodec.
 Open Scope N_scope.
+
+(* the constants translated from the Rust sources are the specification's: changing a flag bit,
+   a preamble size, a mode/type code or the family id on both the writer and the reader side of the
+   crate (which every round-trip test survives) breaks here *)
+Theorem c12_hll_layout_glue :
+  zN GenHll.SERIAL_VERSION = L_SER_VER /\ zN GenCodec.FAMILY_HLL_ID = L_FAMILY /\
+  zN GenHll.LIST_PREINTS = L_PRE_LIST /\ zN GenHll.HASH_SET_PREINTS = L_PRE_SET /\ zN GenHll.HLL_PREINTS = L_PRE_HLL /\
+  zN GenHll.LIST_PREAMBLE_SIZE = 4 * L_PRE_LIST /\ zN GenHll.SET_PREAMBLE_SIZE = 4 * L_PRE_SET /\
+  zN GenHll.HLL_PREAMBLE_SIZE = 4 * L_PRE_HLL /\
+  zN GenHll.EMPTY_FLAG_MASK = L_FLAG_EMPTY /\ zN GenHll.COMPACT_FLAG_MASK = L_FLAG_COMPACT /\
+  zN GenHll.OUT_OF_ORDER_FLAG_MASK = L_FLAG_OOO /\
+  zN GenHll.CUR_MODE_LIST = L_MODE_LIST /\ zN GenHll.CUR_MODE_SET = L_MODE_SET /\ zN GenHll.CUR_MODE_HLL = L_MODE_HLL /\
+  zN GenHll.TGT_HLL4 = 0 /\ zN GenHll.TGT_HLL6 = 1 /\ zN GenHll.TGT_HLL8 = 2 /\
+  zN GenHll.KEY_BITS_26 = L_KEY_BITS /\ zN GenHll.AUX_TOKEN = L_AUX_TOKEN /\ zN GenHll.COUPON_SIZE_BYTES = 4.
+Proof. repeat split; reflexivity. Qed.
+
+(* the mode byte of the writer is the specification's curMode | tgtType << 2 *)
+Theorem c12_hll_mode_byte :
+  forall cur t, cur < 4 -> mode_byte cur t = mode_b cur (tgt_num t).
+Proof.
+  intros cur t H. assert (Hc : cur = 0 \/ cur = 1 \/ cur = 2 \/ cur = 3) by lia.
+  destruct Hc as [ -> | [ -> | [ -> | -> ] ] ]; destruct t; reflexivity.
+Qed.
+
+(* non-vacuity / sanity of the decoder: it inverts the spec encoder on a concrete list image and
+   reads a concrete compact Hll4 image with one exception *)
+Example c12_hll_example :
+  (exists im, hll_spec_decode (enc_list true 10 2 [67108865; 134217731]) = Some im /\ im_coupons im = [67108865; 134217731] /\
+              im_mode im = 0 /\ im_type im = 2 /\ im_lgk im = 10) /\
+  (exists im, hll_spec_decode (enc_hll_pre true false 4 0 0 1 0 0 0 1 1 ++ [0xF1; 0x11; 0x11; 0x11; 0x11; 0x11; 0x11; 0x11]
+                               ++ le_bytes 4 (20 * 67108864 + 1)) = Some im /\
+              im_regs im = [2; 20; 2; 2; 2; 2; 2; 2; 2; 2; 2; 2; 2; 2; 2; 2] /\ im_aux im = [(1, 20)]).
+Proof. vm_compute. split; eexists; repeat split; reflexivity. Qed.
